@@ -480,6 +480,12 @@ def direct_probes(prop, rep):
         both("max unorderable", "max:unorderable", lambda: G.drive(a.max([1, "a"])), lambda: builtins.max([1, "a"]))
         both("set unhashable", "set:unhashable", lambda: G.drive(a.set([1, [2]])), lambda: builtins.set([1, [2]]))
         both("dict pairs", "dict:pairs", lambda: G.drive(a.dict([[1, 2], (3, 4)])), lambda: builtins.dict([[1, 2], (3, 4)]))
+        for pairs, kw in (([("a", 1), ("b", 2), ("c", 3)], {"b": 20, "d": 40}), ([], {"x": 1}), ([("k", 1)], {}), ([("a", 1), ("a", 2)], {"a": 3, "z": 0})):
+            both("dict(pairs, **kwargs) %r %r" % (pairs, kw), "dict:kwargs", lambda: builtins.list(G.drive(a.dict(pairs, **kw)).items()),
+                 lambda: builtins.list(builtins.dict(pairs, **kw).items()))
+            both("dict(iterator of pairs, **kwargs) %r %r" % (pairs, kw), "dict:kwargs", lambda: builtins.list(G.drive(a.dict(iter(pairs), **kw)).items()),
+                 lambda: builtins.list(builtins.dict(iter(pairs), **kw).items()))
+        both("dict(**kwargs) only", "dict:kwargs", lambda: builtins.list(G.drive(a.dict(p=1, q=2)).items()), lambda: builtins.list(builtins.dict(p=1, q=2).items()))
         both("reduce empty", "reduce:empty", lambda: G.drive(a.reduce(lambda x, y: x + y, [])), lambda: __import__("functools").reduce(lambda x, y: x + y, []))
         class FalsyKey:          # a callable container that is empty: falsy, still the key function
             def __call__(self, x):
@@ -795,6 +801,9 @@ def check_faults(prop, tier, seed):
     elif prop == "C18":
         fails += check_c16.aspect_release(rep, rng, ng, cancel=True)
         fails += from_iterable_release(rep, rng, ng // 2, cancel=True)
+        # an ExitStack unwinding under cancellation behaves like the nested `async with` statements (check_c14's stage)
+        import check_c14
+        fails += check_c14.cancellation_stage(rep, rng, 40 if tier == "quick" else 800)
     finish_with_model(rep, prop, pairs, fails, proofs_ok)
     return rep.finish()
 
@@ -1056,7 +1065,10 @@ def released_problem(case, run):
     if case.tool.kind == "script":
         return False
     if run["uses"] == 0:
-        return False
+        # nothing was touched at all: an iterator tool that was never advanced owes nothing; an aggregation that *returned a
+        # result* has had its source and must have released it (one that rejected its arguments up front is left alone)
+        if not (case.tool.kind == "agg" and run["outcome"][0] == "ok"):
+            return False
     return not released_all(run)
 
 
